@@ -10,6 +10,8 @@ C20 line-protocol driver.   (`.` = empty/absent, `=`+payload = present, byte str
   opts <blocks> <sites>                          Caddyfile `servers { log_credentials }` global options adapted for the
                                                  given sites; blocks = `.` | listener:flag;… ; sites = port,port:haslog;…
   fenc <nwith> <cfg> <tree> <tables>             one log entry through a provisioned FilterEncoder
+  fenc2 <nwith> <outer> <inner> <tree>           …through a FilterEncoder whose wrapped encoder is another FilterEncoder
+                                                 (delete / replace / hash / rename filters only: no tables)
                                                  cfg = `.` | path@filter+path@filter ; tree = `.` | tokens joined by `/`:
                                                  o:<key> … c (object), l:<key>:<kind>:<val> (leaf), n:<key> (zap.Namespace);
                                                  keys ascending per object
@@ -422,6 +424,10 @@ def handle : List String → String
     match nwith.toNat?, parseCfg cfg, parseTree tree, parseTables tables with
     | some _, some cfg, some tree, some t => "ok " ++ showTree (filterEncode (oraclesOf t) cfg tree)
     | _, _, _, _ => "bad-op"
+  | ["fenc2", nwith, outer, inner, tree] =>
+    match nwith.toNat?, parseCfg outer, parseCfg inner, parseTree tree with
+    | some _, some co, some ci, some tree => "ok " ++ showTree (filterEncode2 (oraclesOf {}) co ci tree)
+    | _, _, _, _ => "bad-op"
   | ["site", c, e, hc, rw, route, status, remote, qs, tin, tadd, tset, tup, tmid, tout, tupo, tresp] =>
     match parseBool c, hostClass hc, parseRoute route, parseHdr tin, parseHdr tmid, parseHdr tout,
           parseHdr tupo, parseHdr tresp with
@@ -441,9 +447,11 @@ namespace CaddyModel.C20
     1 hash on an integer field (passed through)                             hash_full_fails
     2 cookie filter on a string field (passed through)                      hash_full_fails
     3 filter encoder: `first_error>msg → delete` does not run for a field under zap.Namespace("first_error")   fenc_namespace_full_fails
+    4 filter encoder wrapped in a filter encoder: the inner `request>uri → delete` does not run   fenc_wrapped_encoder_full_fails
     (the former query / ip_mask / trailer / filter-encoder witnesses are regression cases in corpus/C20/ now) -/
 def witnessLines : List String := [
   "C20 flt hash 737461747573 o 0 .",
   "C20 flt cookie:d,736964,- 636f6f6b6965 s 7369643d3031323334353637383961626364656630313233343536373839616263646566 .",
-  "C20 fenc 0 66697273745f6572726f723e6d7367@delete n:66697273745f6572726f72/l:6d7367:s:757073747265616d2073616964203031323334353637383961626364656630313233343536373839616263646566 ."]
+  "C20 fenc 0 66697273745f6572726f723e6d7367@delete n:66697273745f6572726f72/l:6d7367:s:757073747265616d2073616964203031323334353637383961626364656630313233343536373839616263646566 .",
+  "C20 fenc2 0 . 726571756573743e757269@delete o:72657175657374/l:757269:s:2f783f746f6b656e3d3031323334353637383961626364656630313233343536373839616263646566/c"]
 end CaddyModel.C20
